@@ -77,11 +77,13 @@ def _merge(parts):
     return out
 
 
-def template(sp, fn, e, node, is_parent, depth=0):
+def template(sp, fn, e, node, is_parent, depth=0, is_own=None):
     """symbolic value of a string expression"""
     if depth > 8:
         return [("?", "depth")]
-    rec = lambda x, at=None: template(sp, fn, x, at if at is not None else node, is_parent, depth + 1)
+    rec = lambda x, at=None: template(sp, fn, x, at if at is not None else node, is_parent, depth + 1, is_own)
+    if is_own is not None and is_own(e, node):
+        return [("own",)]       # the setting as it is (storing it back changes nothing)
     if isinstance(e, ast.Constant):
         return [("lit", e.value)] if isinstance(e.value, str) else [("?", repr(e.value))]
     if is_parent(e, node):
@@ -233,7 +235,13 @@ def derive_table(an, fn, attr):
                         isinstance(t, ast.Attribute) and t.attr == attr and isinstance(t.value, ast.Name) and t.value.id == fn.self_name for t in n.ast.targets):
                     if is_own(n.ast.value, n):
                         continue
-                    vals.append((_merge(template(sp, fn, n.ast.value, n, is_parent)), n))
+                    tpl = _merge(template(sp, fn, n.ast.value, n, is_parent, 0, is_own))
+                    if tpl == [("own",)]:
+                        continue        # under this scenario the statement stores the setting back unchanged
+                    leaf = [pl for k_, pl in sp.sources(n.ast.value, n) if k_ == "expr"] if isinstance(n.ast.value, (ast.IfExp, ast.Name, ast.BoolOp)) else [n.ast.value]
+                    if leaf and all(isinstance(x, ast.Constant) and x.value is {"none": None, "false": False, "true": True}.get(own, Ellipsis) for x in leaf):
+                        continue        # ... or stores the very constant the setting already is
+                    vals.append((tpl, n))
             # can the function also finish without assigning?
             assigns = {n for _, n in vals}
             skip = g.path(g.entry, lambda x: x is g.exit, may_raise=lambda x: False, stop=lambda x: x in assigns, edge_filter=sp.edge_ok) is not None
